@@ -588,7 +588,19 @@ func judge(x *h.X, d, d2 keyderivation.KeysetDeriver, es []dentry, salt []byte, 
 	var h1, h2, h3 *keyset.Handle
 	var e1, e2, e3 error
 	if p, msg := h.Try(func() {
-		h1, e1 = d.DeriveKeyset(salt)
+		// the first derivation gets the salt in a buffer the caller has just used for ANOTHER salt of the same length on
+		// the same deriver and rewritten in place (a deriver remembering the salt by reference answers with the old one)
+		in := salt
+		if len(salt) > 0 {
+			buf := bytes.Clone(salt)
+			for i := range buf {
+				buf[i] ^= 0x5c
+			}
+			d.DeriveKeyset(buf)
+			copy(buf, salt)
+			in = buf
+		}
+		h1, e1 = d.DeriveKeyset(in)
 		h2, e2 = d.DeriveKeyset(bytes.Clone(salt))
 		h3, e3 = d2.DeriveKeyset(salt)
 	}); p {
